@@ -20,13 +20,15 @@ func init() {
 func checkC03(c *Ctx) {
 	r031(c, "R03.1 drain-protocol-order")
 	r032(c)
-	r033(c)
+	r033(c, "R03.3 gate-before-drain-and-joins")
 	r034(c)
 	r035(c)
 	r036(c)
 	// held requests choose their balancer only after the gate (shared with C07)
 	r073(c, "R03.7 balancer-chosen-after-the-gate")
 	r171b(c)
+	// held requests are released only by resume/stop/their own timer: the gate's state machine (shared with C07)
+	r071(c, "R03.8 gate-state-machine")
 }
 
 func isLoadOfGlobal(v ssa.Value, g *ssa.Global) bool {
@@ -400,8 +402,7 @@ func (c *Ctx) joinShape(rule, name string, fn *ssa.Function, collOK func(ssa.Val
 }
 
 // R03.3 command order and joins.
-func r033(c *Ctx) {
-	const rule = "R03.3 gate-before-drain-and-joins"
+func r033(c *Ctx, rule string) {
 	c.floor(rule, 14)
 	sdrain := c.method("Service", "Drain")
 	for _, cmd := range []struct{ m, gate string }{{"Pause", "Pause"}, {"Stop", "Stop"}} {
